@@ -23,30 +23,30 @@ Qed.
 Lemma updN_ext_at {A} (f g : A -> A) (l : list A) i :
   (forall x, nthN l i = Some x -> f x = g x) -> updN l i f = updN l i g.
 Proof.
-  unfold nthN, updN. generalize (N.to_nat i). clear i. induction l as [|y l IH]; intros [|n] H; cbn [upd_nat nth_error] in *; try reflexivity.
+  rewrite !updN_upd_nat. setoid_rewrite nthN_nth_error. generalize (N.to_nat i). clear i. induction l as [|y l IH]; intros [|n] H; cbn [upd_nat nth_error] in *; try reflexivity.
   - rewrite (H y eq_refl). reflexivity.
   - f_equal. apply IH. exact H.
 Qed.
 Lemma updN_id {A} (f : A -> A) (l : list A) i : (forall x, nthN l i = Some x -> f x = x) -> updN l i f = l.
 Proof.
-  unfold nthN, updN. generalize (N.to_nat i). clear i. induction l as [|y l IH]; intros [|n] H; cbn [upd_nat nth_error] in *; try reflexivity.
+  rewrite !updN_upd_nat. setoid_rewrite nthN_nth_error. generalize (N.to_nat i). clear i. induction l as [|y l IH]; intros [|n] H; cbn [upd_nat nth_error] in *; try reflexivity.
   - rewrite (H y eq_refl). reflexivity.
   - f_equal. apply IH. exact H.
 Qed.
 Lemma nthN_updN_other {A} (f : A -> A) (l : list A) i j : i <> j -> nthN (updN l i f) j = nthN l j.
 Proof.
-  intros Hne. unfold nthN, updN. rewrite upd_nat_nth.
+  intros Hne. rewrite !nthN_nth_error, updN_upd_nat. rewrite upd_nat_nth.
   destruct (Nat.eqb_spec (N.to_nat i) (N.to_nat j)) as [He|_]; [lia|reflexivity].
 Qed.
 Lemma nthN_updN_same {A} (f : A -> A) (l : list A) i : nthN (updN l i f) i = option_map f (nthN l i).
-Proof. unfold nthN, updN. rewrite upd_nat_nth, Nat.eqb_refl. reflexivity. Qed.
+Proof. rewrite !nthN_nth_error, updN_upd_nat. rewrite upd_nat_nth, Nat.eqb_refl. reflexivity. Qed.
 Lemma setN_as_updN {A} (g : A -> A) (l : list A) i b : nthN l i = Some b -> setN l i (g b) = updN l i g.
 Proof.
   intros H. unfold setN. apply updN_ext_at. intros x Hx. rewrite H in Hx. inversion Hx. reflexivity.
 Qed.
 Lemma nthN_in_range {A} (l : list A) i : i < N.of_nat (length l) -> exists x, nthN l i = Some x.
 Proof.
-  intros H. unfold nthN. destruct (nth_error l (N.to_nat i)) as [x|] eqn:Hn; [exists x; reflexivity|].
+  intros H. rewrite nthN_nth_error. destruct (nth_error l (N.to_nat i)) as [x|] eqn:Hn; [exists x; reflexivity|].
   apply nth_error_None in Hn. lia.
 Qed.
 
@@ -123,10 +123,10 @@ Qed.
 Lemma memN_idxs {A} (p : A -> bool) (l : list A) i x :
   nthN l i = Some x -> memN i (idxs p 0 l) = p x.
 Proof.
-  intros Hx. destruct (p x) eqn:Hp.
+  intros Hx. rewrite nthN_nth_error in Hx. destruct (p x) eqn:Hp.
   - apply memN_in. apply idxs_in. split; [lia|]. exists x. rewrite N.sub_0_r. split; assumption.
   - destruct (memN i (idxs p 0 l)) eqn:Hm; [|reflexivity]. apply memN_in in Hm. apply idxs_in in Hm.
-    destruct Hm as [_ [y [Hy Hpy]]]. rewrite N.sub_0_r in Hy. unfold nthN in Hx. rewrite Hx in Hy. inversion Hy; subst. congruence.
+    destruct Hm as [_ [y [Hy Hpy]]]. rewrite N.sub_0_r in Hy. rewrite Hx in Hy. inversion Hy; subst. congruence.
 Qed.
 
 (* ---------- sums ---------- *)
